@@ -184,12 +184,12 @@ ReadStep0(r, l0) ==
         ELSE AddLine([r EXCEPT !.cstk = c.stk, !.mute = c.mute],
                      LineObj(i, l0, TRUE, FALSE, r.zone, r.file, r.region))
     ELSE IF l0.k = "ince" THEN
-        \* end of an included file: the includer's file scope, local region, zone, condition stack and
-        \* mute counter continue unchanged
+        \* end of an included file: the includer's file scope, local region, zone and condition stack
+        \* continue unchanged; the mute counter is NOT per file (muting carries across, as if pasted)
         IF r.fstk = <<>> THEN Fail(r, "internal")
         ELSE LET f == Last(r.fstk) IN
              [r EXCEPT !.fstk = Front(@), !.file = f.file, !.region = f.region, !.zone = f.zone,
-                       !.cstk = f.cstk, !.mute = f.mute]
+                       !.cstk = f.cstk]
     ELSE IF ~Active(r.cstk) THEN
         \* a line in a branch that is not selected contributes nothing
         IF l0.k = "incb" THEN
@@ -213,11 +213,11 @@ ReadStep0(r, l0) ==
                            LineObj(i, l, TRUE, muted, r.zone, r.file, r.region))
         [] l.k = "incb" ->
               \* a fresh file scope under the global scope; the included file starts in GLOBAL with its
-              \* own (empty) condition stack and mute counter
+              \* own (empty) condition stack; muting continues
               [r EXCEPT !.fstk = Append(@, [file |-> r.file, region |-> r.region, zone |-> r.zone,
                                              cstk |-> r.cstk, mute |-> r.mute]),
                         !.file = r.nfile + 1, !.nfile = r.nfile + 1, !.region = 0, !.zone = "GLOBAL",
-                        !.cstk = <<>>, !.mute = 0]
+                        !.cstk = <<>>]
         [] l.k \in {"labreg", "labkw"} -> Fail(r, "badlabel")
         [] l.k = "lab" ->
               IF Cls(l.n) = "l"
@@ -412,6 +412,8 @@ Admissible(l, r) ==
     /\ l.k = "ince" => (r.fstk # <<>> /\ (Active(Last(r.fstk).cstk) => r.cstk = <<>>))
     /\ (l.k # "ince" /\ r.fstk # <<>> /\ ~Active(Last(r.fstk).cstk)) => FALSE
     /\ l.k = "incb" => Len(r.fstk) < 2
+    \* a conditional chain that spans an include boundary is left open
+    /\ (l.k \in {"elif", "else", "endif"} /\ r.fstk # <<>>) => r.cstk # <<>>
 
 Read(l) ==
     /\ phase = "read" /\ rd.status = "run" /\ Len(prog) < MaxLen
@@ -550,6 +552,29 @@ ResolvesOnlyToVisible ==
                                             /\ res.labs[e].v = OperandVal(o, res.labs)
 NoDuplicateKeys == Ok => \A x, y \in 1..Len(res.labs) : x # y => res.labs[x].key # res.labs[y].key
 
+(* C17: where literal pasting is expressible in the line language, the include semantics above IS      *)
+(* pasting: no file- or local-scoped names, no zone selection, no origin inside the included text.      *)
+Strip(p) == SelectSeq(p, LAMBDA l : l.k \notin {"incb", "ince"})
+RECURSIVE InsideInc(_, _, _)
+InsideInc(p, j, depth) ==      \* TRUE iff some line at include depth > 0 satisfies "is an org"
+    IF j > Len(p) THEN FALSE
+    ELSE IF p[j].k = "incb" THEN InsideInc(p, j + 1, depth + 1)
+    ELSE IF p[j].k = "ince" THEN InsideInc(p, j + 1, depth - 1)
+    ELSE (depth > 0 /\ p[j].k = "org") \/ InsideInc(p, j + 1, depth)
+PasteClass(p) ==
+    /\ \E j \in 1..Len(p) : p[j].k = "incb"
+    /\ \A j \in 1..Len(p) : p[j].k \notin {"zone", "orgz"}
+    /\ \A j \in 1..Len(p) :
+          (p[j].n # "" /\ p[j].k \in {"lab", "const", "i2", "i3", "byte"}) => Cls(p[j].n) = "g"
+    /\ ~InsideInc(p, 1, 0)
+GlobalVals(labs) == {<<labs[e].key[2], labs[e].v>> : e \in 1..Len(labs)}
+IncludeIsPaste ==
+    (Done /\ PasteClass(prog)) =>
+        LET r2 == Run(Strip(prog)) IN
+        /\ r2.status = res.status
+        /\ r2.image = res.image
+        /\ (res.status = "ok" => GlobalVals(r2.labs) = GlobalVals(res.labs))
+
 ---------------------------------------------------------------------------
 (* Emission of scenarios with the expected observation.                    *)
 
@@ -575,4 +600,7 @@ Scenario ==
      open |-> MutedOverlap(res.objs \o (IF res.status = "ok" THEN <<>> ELSE PreDataObjs))]
 
 Emit == Done => PrintT(<<"EMIT", ToJson(Scenario)>>)
+\* emission restricted to programs that contain an include / a conditional opener
+EmitInc == (Done /\ \E j \in 1..Len(prog) : prog[j].k = "incb") => PrintT(<<"EMIT", ToJson(Scenario)>>)
+EmitCond == (Done /\ \E j \in 1..Len(prog) : prog[j].k \in OpenKinds) => PrintT(<<"EMIT", ToJson(Scenario)>>)
 =============================================================================
